@@ -50,4 +50,4 @@ def all_harnesses():
 
 
 def harnesses(tier, seed):
-    return fold(select(all_harnesses(), tier, seed, 12, budget=5000), 4)
+    return fold(select(all_harnesses(), tier, seed, 12), 4)
